@@ -156,6 +156,21 @@ fn history<Q: Rep>(tc0: TC<Q>, g: &mut SplitMix64, t_total: usize, sf: usize, mf
             }
         }
     }
+    // ---- snapshot / restore of the ladder reached by the history, then lock-step with an in-memory twin ----
+    {
+        let reps: Vec<(Q, f64)> = b.graph_ref().iter().map(|(q, beta)| (q.q.clone(), *beta)).collect();
+        let (t2, sf2, mf2) = (4 + g.below(6) as usize, 1 + g.below(3) as usize, 1 + g.below(3) as usize);
+        if let Some(r) = Q::ladder_snapshot_lockstep(&reps, g.next(), t2, sf2, mf2) {
+            let heat = reps.iter().filter(|(q, _)| q.json().get("bond_weights").map(|b| !b.is_null()).unwrap_or(false)).count();
+            stat("snap.ladders", 1);
+            stat("snap.heatbath_replicas", heat as u64);
+            let sin = format!("hist snap-{} {} {} {} {}", kind, n, t2, sf2, mf2);
+            match r {
+                Ok((nsw2, ns2)) => emit(true, &sin, &format!("{} {}", nsw2, ns2), Some(Ok(()))),
+                Err(m) => emit(true, &sin, &format!("{} {}", t2 / sf2, t2 / mf2), Some(Err(m))),
+            }
+        }
+    }
     let nsamples = samples_b.first().map(|s| s.len()).unwrap_or(t_total / mf);
     stat(&format!("hist.{}.replicas_{}", kind, n), 1);
     stat("hist.tempering_steps", nsw);
